@@ -52,6 +52,9 @@ checks = {
  "C14": dict(design="4/C14", engine="tlc-bytes", technique="TLC enumeration of the byte-string input domain (Transform_MC, with the model's own laws as invariants) + TLC trace validation of the recorded function table of all real transformations against the laws and reference definitions of Transform.tla (Transform_Trace)",
    text="Reference definitions and laws (Pure, InputIntact, ChangeSound, inverse pairs, idempotence) are written in TLA+ over byte strings; TLC enumerates every string over an adversarial alphabet up to a length bound; the real transformations are evaluated on all of them on inspectable buffers, and TLC checks every law on every record of the recorded function table (trace validation of pure functions).",
    note="md5 / sha1 / base64 / length reference values: Go standard library. Case and whitespace reference equality asserted on ASCII inputs only. The laws are checked on every registered transformation, the byte-exact reference on the 14 it defines."),
+ "C15": dict(design="4/C15", engine="tlc-bytes", technique="TLC evaluation of the executable predicate definitions of Operators.tla over the whole byte-string input domain (truth table + model-level theorems) compared row by row with the real operators; rule-level negation / capture probes; @ipMatch against the TLA+ CIDR table and net.IPNet",
+   text="Each documented predicate is a direct TLA+ definition; TLC evaluates every (operator, argument) pair of the table on every byte string over an adversarial alphabet up to a length bound and prints the truth table; the real operators from the registry are evaluated on every row. Negation and TX.0-9 captures are checked through single-rule WAFs.",
+   note="@rx semantics = Go regexp (trusted base); libinjection, rbl, geoLookup, inspectFile, validateSchema/Nid internals are not covered (only what the table lists)."),
 }
 
 not_built_reason = "check under construction in this session (see DESIGN.md section 4); not claimed until its machinery is committed"
